@@ -23,6 +23,9 @@ pub enum Kind {
     AsyncTrait,
     /// hand-written `fn f(..) -> Pin<Box<dyn Future>> { prefix; Box::pin(async move { .. }) }`
     BoxPinTail,
+    /// an `async fn` whose own body ends in `Box::pin(async move { .. })`: an async factory that
+    /// returns a boxed future; the call (and its span) ends when the factory returns
+    AsyncBoxPin,
 }
 
 #[derive(Clone, Copy, Debug, Serialize, Deserialize, PartialEq)]
@@ -116,6 +119,7 @@ fn spec() -> BoxedStrategy<FnSpec> {
         1 => Just(Kind::AsyncMethod),
         2 => Just(Kind::AsyncTrait),
         1 => Just(Kind::BoxPinTail),
+        1 => Just(Kind::AsyncBoxPin),
     ];
     let argty = prop_oneof![
         3 => Just(ArgTy::I64),
@@ -130,7 +134,7 @@ fn spec() -> BoxedStrategy<FnSpec> {
     let key = prop_oneof![3 => "[a-z][a-z0-9_.]{0,8}", 1 => Just("ключ".to_string()), 1 => Just("k 😀".to_string()), 1 => Just("".to_string())];
     let prop = (key, 0u8..5, any::<u8>()).prop_map(|(key, form, arg)| Prop { key, form, arg });
     kind.prop_flat_map(move |k| {
-        let is_async = matches!(k, Kind::AsyncFree | Kind::AsyncEop | Kind::AsyncMethod | Kind::AsyncTrait | Kind::BoxPinTail);
+        let is_async = matches!(k, Kind::AsyncFree | Kind::AsyncEop | Kind::AsyncMethod | Kind::AsyncTrait | Kind::BoxPinTail | Kind::AsyncBoxPin);
         (
             Just(k),
             proptest::collection::vec(argty.clone(), 0..4),
@@ -153,7 +157,7 @@ fn spec() -> BoxedStrategy<FnSpec> {
         let mut args = args;
         let mut ret = ret;
         let mut body = body;
-        if kind == Kind::BoxPinTail {
+        if matches!(kind, Kind::BoxPinTail | Kind::AsyncBoxPin) {
             // the returned future must be 'static: by-value arguments only, no nested traced calls
             args.retain(|a| matches!(a, ArgTy::I64 | ArgTy::U8 | ArgTy::Bool | ArgTy::OptI64));
             fn strip(b: &mut Vec<Stmt>) {
@@ -425,6 +429,29 @@ fn render_fn(s: &FnSpec, annotated: bool, before: &[FnSpec]) -> String {
         let _ = writeln!(out, "    }}");
         return out;
     }
+    if s.kind == Kind::AsyncBoxPin {
+        let ident = format!("f{}", s.id);
+        let rt_ = ret_ty(s).trim_start_matches(" -> ").to_string();
+        let _ = writeln!(out, "    #[allow(unused_mut, unused_variables, unused_assignments, unreachable_code, clippy::all)]");
+        let _ = writeln!(out, "    pub async fn {}({}) -> std::pin::Pin<Box<dyn std::future::Future<Output = {}> + Send + 'static>> {{", ident, params.join(", "), rt_);
+        // the traced call is the factory itself
+        let _ = writeln!(out, "        let _ct = rt::CallTrace::enter({}, fastrace::func_path!());", s.id);
+        let _ = writeln!(out, "        rt::log(format!(\"f{}:factory\"));", s.id);
+        let _ = writeln!(out, "        rt::YieldK::new(1).await;");
+        let _ = writeln!(out, "        let _pg = rt::DropLog::new(\"f{}.factory-guard\");", s.id);
+        let _ = writeln!(out, "        Box::pin(async move {{");
+        let _ = writeln!(out, "        let mut acc: i64 = {};", s.id);
+        for (i, a) in s.args.iter().enumerate() {
+            let _ = writeln!(out, "        acc = acc.wrapping_mul(31).wrapping_add({});", as_i64(*a, &format!("a{}", i)));
+        }
+        let mut counter = 0u32;
+        render_body(s, &s.body, &mut out, 2, before, &mut counter);
+        let _ = writeln!(out, "        rt::log(format!(\"f{}:end:{{}}\", acc));", s.id);
+        let _ = writeln!(out, "        {}", ret_expr(s, false));
+        let _ = writeln!(out, "        }})");
+        let _ = writeln!(out, "    }}");
+        return out;
+    }
     let ident = format!("f{}", s.id);
     let vis = if s.kind == Kind::AsyncTrait { "" } else { "pub " };
     let _ = writeln!(out, "    #[allow(unused_mut, unused_variables, unused_assignments, unreachable_code, clippy::all)]");
@@ -484,7 +511,7 @@ fn render_module(specs: &[FnSpec], annotated: bool) -> String {
 
 fn render_driver(s: &FnSpec) -> String {
     let mut out = String::new();
-    let is_async = matches!(s.kind, Kind::AsyncFree | Kind::AsyncEop | Kind::AsyncMethod | Kind::AsyncTrait | Kind::BoxPinTail);
+    let is_async = matches!(s.kind, Kind::AsyncFree | Kind::AsyncEop | Kind::AsyncMethod | Kind::AsyncTrait | Kind::BoxPinTail | Kind::AsyncBoxPin);
     let _ = writeln!(out, "#[allow(unused_mut, unused_variables)]\npub fn drive_f{}(annotated: bool, inp: &rt::Inputs) -> rt::Outcome {{", s.id);
     let mut call_args = vec![];
     let mut muts = vec![];
@@ -526,7 +553,13 @@ fn render_driver(s: &FnSpec) -> String {
         }
         if is_async {
             let _ = writeln!(out, "            let fut = {};", callee(m));
-            let _ = writeln!(out, "            let r = rt::drive(fut, &mut polls);");
+            if s.kind == Kind::AsyncBoxPin {
+                // the factory call completes here; the future it returns is polled elsewhere
+                let _ = writeln!(out, "            let inner = rt::drive(fut, &mut polls);");
+                let _ = writeln!(out, "            let r = rt::drive_elsewhere(inner, &mut polls);");
+            } else {
+                let _ = writeln!(out, "            let r = rt::drive(fut, &mut polls);");
+            }
         } else {
             let _ = writeln!(out, "            let r = {};", callee(m));
         }
@@ -601,7 +634,7 @@ fn main() {
     }
     let _ = writeln!(src, "pub static PAIRS: &[rt::Pair] = &[");
     for s in &specs {
-        let is_async = matches!(s.kind, Kind::AsyncFree | Kind::AsyncEop | Kind::AsyncMethod | Kind::AsyncTrait | Kind::BoxPinTail);
+        let is_async = matches!(s.kind, Kind::AsyncFree | Kind::AsyncEop | Kind::AsyncMethod | Kind::AsyncTrait | Kind::BoxPinTail | Kind::AsyncBoxPin);
         let _ = writeln!(
             src,
             "    rt::Pair {{ id: {}, ident: \"f{}\", naming: {}, name: {}, is_async: {}, eop: {}, nprops: {}, kind: \"{:?}\", drive: drive_f{}, props: props_f{}, spec: {} }},",
